@@ -39,8 +39,12 @@ class Contract:
         self.local_sorts = kw.pop("local_sorts", {})
         self.ghost_init = kw.pop("ghost_init", None)
         self.ghost_vars = kw.pop("ghost_vars", [])
+        self.aliases = kw.pop("aliases", {})  # extra names in contract expressions bound to parameters (e.g. self -> visitor)
+        self.inline_callees = kw.pop("inline_callees", [])  # callees whose REAL body is executed (instead of their contract) in this proof
         self.opaque_locals = kw.pop("opaque_locals", [])  # locals whose value may be left unmodelled (only flow into opaque sinks)
         self.pure_fn = kw.pop("pure_fn", None)  # name of an uninterpreted function: at call sites result := pure_fn(args) (deterministic, heap-free function)
+        self.typing_exceptions = kw.pop("typing_exceptions", {})  # field -> reason: stores of another Python type into this field are accepted
+        #                                                          (recorded as an unchecked assumption: no reader of that cell relies on the declared type)
         self.only_in = kw.pop("only_in", None)  # a virtual contract that is only used while verifying the listed functions
         self.virtual = kw.pop("virtual", False)  # contract of a base-class method that every override must satisfy (no dispatch fork at call sites)
         self.covers = kw.pop("covers", [])  # conditions that must each be satisfiable together with `requires` (non-vacuity)
@@ -97,6 +101,9 @@ class Registry:
         self.consts = {}
         self.shared = {}
         self.recdefs = {}
+
+    def variant_classes(self, name):
+        return [c for (c, n) in self.class_fields if n == name]
 
     def load(self, path):
         sm = SpecModule(path)
